@@ -344,7 +344,6 @@ func c13EmptyBeforePassLimit(c *Ctx) {
 		}
 		return nil
 	}
-	zero := func(v ssa.Value) bool { k, ok := ConstInt(v); return ok && k == 0 }
 	emptiness := map[*types.Var]bool{}
 	returnsOf := func(g *ssa.Global, f func(fn *ssa.Function, r *ssa.Return)) {
 		for _, fn := range fns {
@@ -361,11 +360,14 @@ func c13EmptyBeforePassLimit(c *Ctx) {
 	}
 	returnsOf(noAmmo, func(fn *ssa.Function, r *ssa.Return) {
 		for _, f := range CmpFactsAt(r) {
-			if f.Op != token.EQL {
-				continue
-			}
 			for _, pr := range [][2]ssa.Value{{f.X, f.Y}, {f.Y, f.X}} {
-				if zero(pr[1]) {
+				op := f.Op
+				if pr[0] != f.X {
+					op = flipCmp(op)
+				}
+				// X == 0, X <= 0, X < 1 (a length or an unsigned counter: all say "nothing")
+				k, isK := ConstInt(pr[1])
+				if isK && ((op == token.EQL && k == 0) || (op == token.LEQ && k == 0) || (op == token.LSS && k == 1)) {
 					if fv := subj(pr[0]); fv != nil {
 						emptiness[fv] = true
 					}
